@@ -97,6 +97,29 @@ class HarnessError(Exception):
     pass
 
 
+def guarded_run(mod, case) -> Outcome:
+    """run_case, with one addition: an exception that escapes run_case *out of the library*
+    (the innermost frame that belongs to either the harness or the tree under test is library
+    code) is the library failing where the property expects a result - a discrepancy with the
+    raising site as signature.  An exception raised by harness code stays a harness error."""
+    try:
+        return mod.run_case(case)
+    except Exception as e:
+        lib = os.path.realpath(os.path.join(REPO, "canopen")) + os.sep
+        har = os.path.realpath(os.path.join(VERIF, "harness")) + os.sep
+        tb, last = e.__traceback__, None
+        while tb is not None:
+            fn = os.path.realpath(tb.tb_frame.f_code.co_filename)
+            if fn.startswith(lib) or fn.startswith(har):
+                last = (fn, tb.tb_frame.f_code.co_name)
+            tb = tb.tb_next
+        if last is None or not last[0].startswith(lib):
+            raise
+        sig = f"{mod.PROPERTY}/crash/{type(e).__name__}@{last[0][len(lib):]}:{last[1]}"
+        return Outcome(True, "crash", [Discrepancy(
+            sig, f"the library raised {type(e).__name__}: {str(e)[:200]} where the property expects a result")])
+
+
 def canon(case) -> str:
     return json.dumps(case, sort_keys=True, separators=(",", ":"), default=_jsonable)
 
@@ -175,7 +198,7 @@ class Ctx:
     def check(self, case):
         """Run one case; record it; raise Violation on an unknown discrepancy."""
         self.current_case = case
-        out = self.mod.run_case(case)
+        out = guarded_run(self.mod, case)
         self.current_case = None
         if out.excluded:
             self.excluded[out.excluded] += 1
